@@ -30,5 +30,10 @@ func (name Name) ID() uint64 {
 // Release calls to the Names' Pool to release itself. The
 // restrictions and affects of Pool.Release apply.
 func (name *Name) Release() {
+	// Releasing nil must be as harmless as in pool.Release
+	if name == nil {
+		return
+	}
+
 	name.pool.Release(name)
 }
